@@ -457,15 +457,43 @@ func c03Receiver(rc *RC) {
 	var steps []featStep
 	var sess *xmpp.Session
 	done := false
+	// a quarter of the runs end the receiver's context in the middle of the exchange (right after the features list or a
+	// challenge went out, or after a drawn number of steps), half of those on a transport without deadlines, where
+	// nothing but the negotiation code itself notices the cancellation
+	var srw io.ReadWriter = sc
+	cancelMode := 0
+	if ch.Chance("faults", 1, 4) {
+		cancelMode = 1 + ch.Int("faults", 3)
+		if ch.Chance("faults", 1, 2) {
+			srw = plainRW{&trackConn{Conn: sc}}
+		}
+		cancelSteps := ch.Range("faults", 1, 400)
+		t := rc.Spawn("canceller", func() {
+			start := rc.S.Steps
+			switch cancelMode {
+			case 1:
+				simrt.WaitUntil("cancel:features", func() bool { return done || bytes.Contains(sc.Out().Tap, []byte("</stream:features>")) })
+			case 2:
+				simrt.WaitUntil("cancel:challenge", func() bool { return done || bytes.Contains(sc.Out().Tap, []byte("</challenge>")) })
+			case 3:
+				simrt.WaitUntil("cancel:steps", func() bool { return done || rc.S.Steps-start >= cancelSteps })
+			}
+			if !done {
+				rc.Fire("cancel")
+				simrt.Settle(cancel, "h:cancel")
+			}
+		})
+		t.Daemon = true
+	}
 	rc.Spawn("sut", func() {
 		f := wrapFeature(rc, xmpp.SASLServer(perm, offered...), &steps)
-		sess, _ = xmpp.ReceiveSession(ctx, sc, xmpp.Secure, xmpp.NewNegotiator(func(*xmpp.Session, *xmpp.StreamConfig) xmpp.StreamConfig {
+		sess, _ = xmpp.ReceiveSession(ctx, srw, xmpp.Secure, xmpp.NewNegotiator(func(*xmpp.Session, *xmpp.StreamConfig) xmpp.StreamConfig {
 			return xmpp.StreamConfig{Features: []xmpp.StreamFeature{f, xmpp.BindResource()}}
 		}))
 		done = true
 	})
 	// scripted client program
-	acts := []string{"auth-unknown-plain-payload", "auth-unknown-twostep-payload", "auth-plain-good", "auth-plain-good", "auth-plain-3parts-bad", "auth-plain-malformed", "auth-plain-eq", "auth-plain-empty", "auth-plain-badb64", "auth-plain-good-then-garbage", "auth-twostep-garbage-tail", "auth-twostep", "auth-unoffered", "auth-unknown", "response-first", "abort", "foreign", "auth-nomech"}
+	acts := []string{"auth-twostep-restarts", "auth-unknown-plain-payload", "auth-unknown-twostep-payload", "auth-plain-good", "auth-plain-good", "auth-plain-3parts-bad", "auth-plain-malformed", "auth-plain-eq", "auth-plain-empty", "auth-plain-badb64", "auth-plain-good-then-garbage", "auth-twostep-garbage-tail", "auth-twostep", "auth-unoffered", "auth-unknown", "response-first", "abort", "foreign", "auth-nomech"}
 	var prog []string
 	for i, n := 0, ch.Range("script", 1, 4); i < n; i++ {
 		prog = append(prog, acts[ch.Int("script", len(acts))])
@@ -527,6 +555,22 @@ func c03Receiver(rc *RC) {
 				} else {
 					continue
 				}
+			case "auth-twostep-restarts":
+				// the exchange is started over and over (each <auth/> is answered with a challenge) and never completed
+				n := ch.Range("script", 2, 40)
+				for i := 0; i < n && !done; i++ {
+					before = len(out.Tap)
+					auth("X-TWOSTEP", b64([]byte("hello")))
+					simrt.WaitUntil("script:challenge4", func() bool { return done || len(out.Tap) > before })
+					if !bytes.Contains(out.Tap[before:], []byte("<challenge")) {
+						break
+					}
+				}
+				rc.Fire("auth-restarts")
+				if bytes.Contains(out.Tap[before:], []byte("<success")) {
+					return
+				}
+				continue
 			case "auth-unoffered":
 				auth("SCRAM-SHA-1", b64([]byte("n,,n=user,r=abc")))
 			case "auth-unknown":
